@@ -26,6 +26,10 @@ CHECKS = {
          "Decides the whole mechanism the property names: the runtime has no construct that could swallow, defer or move a panic to another goroutine; the advance calls the pending resumption synchronously and overwrites current/next only afterwards; resumptions run their thunk inside the call; the rewriter never emits go/defer/select/recover.",
          "Go's panic propagation is trusted; panics raised inside user code called from generator statements propagate like any other.",
          "DESIGN.md §4 C18"),
+ "C10": ("induction over the abstract state of each iterator (base + symbolic step) extracted by abstract interpretation of its SSA",
+         "Decides, for every input at once, the structural facts Go's range semantics rests on: index iterators start at key 0, step by 1 and stop at n / len of their own slice header with live element reads; the string iterator decodes the remaining bytes with unicode/utf8, reports the byte offset it decoded at and advances by the decoder's width; the map iterator delegates to reflect.MapRange on the live map and cannot panic on nil interface keys/values; the channel iterator reports the comma-ok receive; Current is pure.",
+         "reflect.MapIter and unicode/utf8 are trusted to match Go's range; element-level equality beyond these facts is not decided; a hand-written decoder would be reported undecided rather than passed.",
+         "DESIGN.md §4 C10"),
 }
 
 NOT_APPLICABLE = {
